@@ -13,8 +13,8 @@ CLAIMED = {
            "DER of primitives and struct-tag driven encoding is encoding/asn1 (assumed)." + COMMON, "6 (C02)"),
  "C04": C("toTimeStruct is proved against the calendar spec (from/until as civil dates at local midnight through an assumed time.ParseInLocation contract that REQUIRES the layout 2006-01-02, duration components added with AddDate, five-year default, both-given rejected, year range), Merge's inheritance rule and the UTC conversion in NewCertificateContext/BuildCertBody; for all inputs.",
            "Assumed: time.ParseInLocation/AddDate/UTC, regexp groups of the duration pattern, strconv.Atoi; UTCTime/GeneralizedTime choice is encoding/asn1." + COMMON, "6 (C04)"),
- "C05": C("Table lemmas proved on the executed package initializers: every documented key/signature algorithm name maps to the algorithm of that name, signature OIDs and key types per algorithm; BuildCertBody's generate/reuse/CSR choice and Sign's algorithm identifier are proved.",
-           "SetPrivateKey/GeneratePrivateKey contracts are assumed (bodies outside the subset: interior pointer, key generation)." + COMMON, "6 (C05)"),
+ "C05": C("Table lemmas proved on the executed package initializers: every documented key/signature algorithm name maps to the algorithm of that name, signature OIDs, key types, curves and curve OIDs per algorithm; GeneratePrivateKey is proved to ask for exactly the modulus length (1024/2048/4096/8192) or the curve the algorithm names, SetPrivateKey to fill the SubjectPublicKeyInfo with rsaEncryption+NULL+PKCS#1 key or id-ecPublicKey+named-curve OID+uncompressed point of that very key; BuildCertBody's generate/reuse/CSR choice and Sign's algorithm identifier are proved.",
+           "Assumed: rsa.GenerateKey/ecdsa.GenerateKey return a key of the requested size/curve, x509.MarshalPKCS1PublicKey and elliptic point encoding as spec functions; interior pointers passed to callees by copy-in/copy-out (callee does not retain them)." + COMMON, "6 (C05)"),
  "C08": C("config.Merge is proved equal to the statement's recursion (specs/merge.smt2) for all profile and certificate extension lists of any length, with loop invariants and a frame obligation (no effect on its inputs); validateAndMerge is proved to return that merge for the named profile.",
            "Assumed: encoding/json.Marshal deterministic in the deep value, ExtensionConfig.Oid interface contract, ObjectIdentifier.Equal/bytes.Equal are content equality." + COMMON, "6 (C08)"),
  "C09": C("config.Validate is proved equal to the statement (in-order selection unless allowOther, every non-optional attribute present, no list accepts all) for all profiles and subjects of any length, and to leave the subject untouched; validateAndMerge/PlanBulkUpdate are proved to turn a rejection into an error before anything is planned.",
@@ -23,8 +23,8 @@ CLAIMED = {
            "Assumed: db.Database interface contract over an abstract backend state, clock readings, needsUpdate named as a function of its arguments at the planning level (abstraction clause)." + COMMON, "6 (C11)"),
  "C13": C("HashSum is proved to be SHA-1 over the JSON of the configuration with alias, profile name and run-relative times blanked (spec blankV); lemmas over blankV prove insensitivity to exactly those and sensitivity to every other field and to static validity.",
            "Assumed: json.Marshal deterministic/injective per shape, SHA-1 collision-free." + COMMON, "6 (C13)"),
- "C14": C("BuildCertBody is proved to reuse a stored key (regardless of the configured algorithm), else use the request's public key without inventing a private key, else generate; GenerateArtifacts is proved to pass the stored key/request in and to return them in the new artifact.",
-           "PEM/PKCS#8 write and read-back are not yet under contract in this revision; induction over runs is a paper step." + COMMON, "6 (C14)"),
+ "C14": C("BuildCertBody is proved to reuse a stored key (regardless of the configured algorithm), else use the request's public key without inventing a private key, else generate; GenerateArtifacts is proved to pass the stored key/request in and to return them in the new artifact; the PEM writers are proved to emit exactly one block of the right type with the PKCS#8 of that key (MarshalPKCS8PrivateKey/parseECPrivateKey/ParsePKCS8PrivateKey proved field by field, see C17).",
+           "ReadPem's block dispatch is assumed (pem.Decode loop outside the subset); induction over runs is a paper step." + COMMON, "6 (C14)"),
  "C19": C("BuildCertBody, Sign and SignCertBody are proved with strongest postconditions per field: each TBS manipulation sets exactly its field before signing, the outer ones replace exactly the outer algorithm/value after signing and leave the signed part untouched.",
            "OID text to arcs and raw decoding are proved in OidFromString/readRawString." + COMMON, "6 (C19)"),
  "C03": C("ParseRDNSequence is proved to turn the comma-separated pieces into single-valued RDNs in reversed order with the type from the documented short-name table (table lemma on the executed initializer) or the dotted OID (OidFromString proved arc by arc) and the value text after the first '=' unchanged; Validate/Merge/validateAndMerge are proved to leave the subject untouched (frame); serial and unique ids are proved to pass through initCertificate, BuildCertBody and Sign.",
@@ -32,11 +32,15 @@ CLAIMED = {
  "C06": C("Every Builder of the eleven extension kinds is proved (commonExtensionHandler inlined, its reflection evaluated for the concrete type): neither raw nor content gives OverrideNeededBuilder, both is an error, raw gives a ConstantBuilder with the kind's OID, the configured critical flag and exactly the decoded raw bytes (readRawString proved for every length); BuildCertBody and Sign are proved to keep builder order; every constructor is proved to carry its critical argument and OID.",
            "parseExtensions (reflection over AnyExtension with a non-constant bound) is assumed and covered by a bounded stand-in in thorough; base64 decoding is assumed." + COMMON, "6 (C06)"),
  "C07": C("Value contracts over a TLV algebra: key usage as minimal named bit list for all 256 flag bytes (bit vectors), the four GeneralName encodings, subjectAltName/authorityInfoAccess as SEQUENCE of the element encodings (loop invariants), key identifiers as SHA-1 of the subject/issuer public key bits, basic constraints, policies, extended key usage as DER of the struct the builders are proved to fill from the configuration.",
-           "DER of primitives and reflection-driven struct encoding is encoding/asn1 (assumed); pathLen 0 cannot be expressed (known finding)." + COMMON, "6 (C07)"),
+           "DER of primitives and reflection-driven struct encoding is encoding/asn1 (assumed); policy qualifiers are proved element by element (nested loop invariants)." + COMMON, "6 (C07)"),
  "C10": C("Write frame proved: exportPemFile writes at most the artifact file of its alias with exactly hash line, certificate, key and request blocks; PutBuildArtifact and BulkUpdate write only artifact files of listed aliases and return the first error; the sign closure is proved to reach BulkUpdate only after successful Open and planning and, when something would be replaced, only if the trimmed lower-cased answer is y; needsUpdate/HashSum lemmas as in C11/C13.",
            "Partial: the two-run quiescence argument composes these per-call facts on paper; OS mtime semantics and the clock are assumptions; db.Database interface contract." + COMMON, "6 (C10)"),
  "C16": C("Admission.marshal, Admissions.marshal, ProfessionInfo.marshal (partialMarshallStruct inlined, its reflection and struct tags evaluated) and makeExplicit are proved to compose the CommonPKI AdmissionSyntax TLV by TLV with the tag strings of the specification; the v1 convert functions are proved to carry every configured field and GeneralName kind.",
            "Field encoders inside encoding/asn1 are assumed." + COMMON, "6 (C16)"),
+ "C17": C("marshalECPrivateKeyWithOID is proved to emit RFC 5915 ECPrivateKey version 1 with the scalar as exactly ceil(bitlen(n)/8) big-endian octets (leading zeros kept), the curve OID and the uncompressed point; MarshalPKCS8PrivateKey to wrap it (or the PKCS#1 key with NULL parameters) under the right algorithm identifier and the named-curve OID of a table proved on the executed initializers; parseECPrivateKey/ParsePKCS8PrivateKey/namedCurveFromOID are proved to read those fields back (scalar value, zero padding accepted, range check against the curve order, curve by OID for all ten curves) and to reject anything else with an error.",
+           "The byte-level round trip composes these per-function contracts with asn1.Marshal/Unmarshal being inverse on the two structs (assumed) - a paper step; ReadPem's block dispatch is assumed; big.Int and elliptic-curve arithmetic are spec functions." + COMMON, "6 (C17)"),
+ "C18": C("IsConsistent is proved to compare NumEntities with the size of the breadth-first closure of the root list under GetSubscribers (loop invariant against the recursive spec bfs), so dangling issuers, cycles and self-loops (never reached from a root) make it false; importCertConfigFile is proved to derive the alias (explicit or base name without suffix), to refuse a second configuration of the same alias, and to file the entity under roots or under its issuer's subscribers; the sign closure is proved to reach BulkUpdate only after Open succeeded; write frame as in C10.",
+           "Partial: importFiles' directory walk and suffix filter are not under contract (fs.WalkDir callbacks); that bfs-count equality characterises forests is the textbook lemma." + COMMON, "6 (C18)"),
  "C20": C("Safety sweep: every index, slice, nil dereference, type assertion, lossy conversion and explicit panic in all functions under contract is an obligation discharged for all inputs satisfying the stated preconditions; preconditions are obligations at in-repo call sites.",
            "Parsers in dependencies (yaml, jsonschema, asn1, pem) are outside; functions marked unverified are listed in evidence; import of artifact files is not yet under contract in this revision." + COMMON, "6 (C20)"),
 }
